@@ -33,6 +33,14 @@ func main() {
 		os.Exit(runHostile(os.Args[2:]))
 	case "hostile-child":
 		os.Exit(runHostileChild(os.Args[2:]))
+	case "drive-file":
+		os.Exit(runDriveFile(os.Args[2:]))
+	case "file-session":
+		os.Exit(runFileSession(os.Args[2:]))
+	case "create-fail":
+		os.Exit(runCreateFail(os.Args[2:]))
+	case "drive-conc":
+		os.Exit(runDriveConc(os.Args[2:]))
 	case "serve":
 		os.Exit(runServe(os.Args[2:]))
 	case "cli-worker":
